@@ -188,7 +188,7 @@ package board
 //@
 //@ # ---- C05: the pseudo-legality test accepts exactly the rule-defined pseudo-legal encodings
 //@ func (*Board).IsPseudoLegal
-//@   props C05
+//@   props C05 C16
 //@   requires repOK(b) && validPos(pos(b)) && m < 1<<15
 //@   use repInstance(b, m.From())
 //@   use repInstance(b, m.To())
